@@ -620,6 +620,26 @@ def _(d):
     return [_fd(d), inl], run
 
 
+@spec("grid.catchment_object_reused", "gis")
+def _(d):
+    """One Catchment object used for both calls: the area without inlets,
+    then with a list of inlets naming a cell twice, then the relations."""
+    inl = d.V(np.array([5., 9., 5.]), containers=ND,
+              dtypes=("int64", "int32", "float64"), intscale=False)
+    g = _fd(d, np.int64)
+    c = Catchment("c", g)
+
+    def run(g, inlets):
+        c.delineate_area(14, nval=100)
+        a0 = np.array(c.idxcells_area).copy()
+        c.delineate_area(14, inlets, nval=100)
+        a1 = np.array(c.idxcells_area).copy()
+        cells = np.arange(16)
+        return [a0, a1, c.downstream(cells), c.upstream(cells),
+                np.asarray(c.flowdir.data).copy()]
+    return [g, inl], run
+
+
 def _fieldgaps(d, dtype=np.float64):
     """6x6 field with missing cells and low values (to be gap filled)"""
     g = Grid("z", 6, 6, dtype=dtype, nodata=-9999.)
